@@ -103,7 +103,7 @@ def xfer : Handler := fun args =>
     The specification column is what a request with these item contents must yield whatever optional IEs
     precede the setup list. (The octet strings come out of the APER decoder with spare capacity holding zeros;
     the extraction results of the spec-shaped items used here do not depend on it — Props/C12 — so it is not modelled.) -/
-def establish : Handler
+def establish1 : Handler
   | [rpp, nas, itemNas, transfer] =>
     match hexArg itemNas, hexArg transfer with
     | some n, some t =>
@@ -121,6 +121,11 @@ def establish : Handler
       (show_ model, match ext with | .ok s => s | .error _ => "undef")
     | _, _ => badOp
   | _ => badOp
+
+/-- with two more arguments the list carries a second item (another session) after the first: `EstablishPDU` reads item [0] -/
+def establish : Handler
+  | [rpp, nas, itemNas, transfer, _, _] => establish1 [rpp, nas, itemNas, transfer]
+  | a => establish1 a
 
 end Extract
 
